@@ -699,6 +699,12 @@ pub const ENTRY_PV_NONE: usize = 98; // an entry without a move (only legal for 
 /// and a pre-existing root entry (any depth / flag / score, cached move = root move `entry_pv`)
 /// as given.
 pub fn entry_body(k: usize, rep: u8, entry_pv: usize, witness: bool) {
+    entry_body_hit(k, rep, entry_pv, witness, false)
+}
+
+/// `force_hit`: the pre-existing root entry is exact and at least as deep as the request, so a
+/// root that gets as far as the table look-up returns at once (keeps wrong paths short).
+pub fn entry_body_hit(k: usize, rep: u8, entry_pv: usize, witness: bool, force_hit: bool) {
     reset();
     unsafe {
         NM[0] = k;
@@ -736,6 +742,9 @@ pub fn entry_body(k: usize, rep: u8, entry_pv: usize, witness: bool) {
     let flag = AtomicBool::new(true);
     let depth: u8 = kani::any();
     kani::assume(depth >= 1);
+    if force_hit {
+        kani::assume(e_flag == sh::EXACT && e_depth >= depth);
+    }
     let mut history = [0u16; 64 * 12];
 
     let result = crate::search::get_best_move_entry(game, &flag, depth, &mut table, &mut history);
@@ -891,6 +900,7 @@ macro_rules! e2_instance {
     };
 }
 
+e2_instance!(c06_entry_k1_rep0_hit, entry_body_hit, 1, REP_MOVE_0, 0, false, true);
 e2_instance!(c08_entry_killers_k2, killers_body, 2);
 e2_instance!(c08_entry_killers_k4, killers_body, 4);
 
